@@ -51,10 +51,12 @@ def main():
     ap.add_argument("--id-suffix", default="")
     a = ap.parse_args()
     prop = os.path.basename(os.path.abspath(a.outdir))
+    tag = prop
+    prop = prop[:3]
     patch = os.path.join(a.outdir, "patch%s.diff" % a.n)
     demo = os.path.join(a.outdir, "demo%s.cpp" % a.n)
     notes = os.path.join(a.outdir, "notes%s.txt" % a.n)
-    sid = "%s-%s%s" % (prop, a.n, a.id_suffix)
+    sid = "%s-%s%s" % (tag, a.n, a.id_suffix)
     meta = {"id": sid, "breaks_property": prop, "source": "independent sub-agent given only the property text and a scratch worktree",
             "notes_from_author": open(notes).read() if os.path.exists(notes) else ""}
     d = sweep.make_worktree(patch=patch)
